@@ -1,4 +1,5 @@
 #include "world.hpp"
+#include <thread>
 #include <algorithm>
 #include <cstdio>
 #include <cstdlib>
@@ -6,6 +7,7 @@
 namespace hm {
 
 static World* g_world = nullptr;
+static bool g_default_reporter_empty = false;   // the first set_reporter of the process returns the library's defaults: callable objects
 
 World* cur() { return g_world; }
 void World::fire_armed_ok() {
@@ -65,7 +67,9 @@ static trompeloeil::ok_reporter_func make_ok_reporter(int gen) {
 
 World::World() {
   g_world = this;
-  trompeloeil::set_reporter(make_reporter(0), make_ok_reporter(0));
+  static bool first_world = true;
+  auto prev = trompeloeil::set_reporter(make_reporter(0), make_ok_reporter(0));
+  if (first_world) { first_world = false; if (!prev.first || !prev.second) g_default_reporter_empty = true; }
   m[0].reset(new M);
   m[1].reset(new M);
   mv[0].reset(new MV);
@@ -154,6 +158,7 @@ void World::install_reporter(int gen, bool pair, std::string* prev_desc) {
     return g;
   };
   std::ostringstream d;
+  if (g_default_reporter_empty) d << "set_reporter-handed-back-an-empty-function-for-the-default-reporter ";
   long want[8]; for (int i = 0; i < 8; ++i) want[i] = delivered[i];   // per generation: reports delivered since it was installed
   auto state_ok = [&](trompeloeil::reporter_func& f) {
     RepFn* r = f.target<RepFn>();
@@ -225,6 +230,13 @@ Outcome World::apply(const Op& op) {
         callobj = op.obj; callfn = op.fn; calla1 = op.a1; calla2 = op.a2;
         try {
           if (op.k1 == 1) { try { throw 42; } catch (int) { o.retv = call_fn(op.obj, op.fn, op.a1, op.a2); } }  // the call is made while an exception is being handled
+          else if (op.k1 == 3) {   // ... on another thread (joined before the history goes on): reporters, tracers and expectations are process-wide
+            std::exception_ptr ep; std::string rv;
+            std::thread th([&] { try { rv = call_fn(op.obj, op.fn, op.a1, op.a2); } catch (...) { ep = std::current_exception(); } });
+            th.join();
+            if (ep) std::rethrow_exception(ep);
+            o.retv = rv;
+          }
           else if (op.k1 == 2) during_unwinding([&] { o.retv = call_fn(op.obj, op.fn, op.a1, op.a2); });      // ... from a destructor while the stack is being unwound (plans use it for calls that return)
           else o.retv = call_fn(op.obj, op.fn, op.a1, op.a2);
           o.kind = OK_ACCEPT;
